@@ -18,7 +18,7 @@ def exports(prop, tier):
     if prop != "C16":
         return []
     sfx = "" if gen_shardedge.has_mwhc() else "_nomwhc"
-    return [("tlc", "MC_ShardEdge", "MC_ShardEdge_export%s.cfg" % sfx)]
+    return [("tlc", "MC_ShardEdge", "MC_ShardEdge_export%s%s.cfg" % ("" if tier == "quick" else "2", sfx))]
 
 
 def episodes(prop, tier, seed):
